@@ -28,3 +28,27 @@ Theorem C11_spec_is_deterministic :
   spec RX sample next_msg flush n rx inp ph acc = Some r -> spec RX sample next_msg flush (S n) rx inp ph acc = Some r.
 Proof. exact spec_mono. Qed.
 Print Assumptions C11_spec_is_deterministic.
+
+(** * The sample source: what samedec decodes does not depend on how the byte stream is cut into reads *)
+From Sameold Require Import Model.Input Proofs.InputP.
+
+(** for every state of the buffered reader and every sequence of (non-empty) [read()] results still to
+    come, the iterator [from_fn(|| read_i16().ok())] yields exactly the samples of the remaining byte
+    stream taken as a whole — two bytes per sample, a lone last byte ignored *)
+Theorem C11_samples_do_not_depend_on_read_boundaries : forall fuel r,
+  chunks_ok r -> all_samples fuel r = samples_of_bytes fuel (bytes_left r).
+Proof. exact samples_independent_of_chunking. Qed.
+Print Assumptions C11_samples_do_not_depend_on_read_boundaries.
+
+Theorem C11_two_chunkings_same_samples : forall fuel chunks1 chunks2,
+  Forall (fun c => c <> []) chunks1 -> Forall (fun c => c <> []) chunks2 -> concat chunks1 = concat chunks2 ->
+  all_samples fuel (mkReader [] chunks1) = all_samples fuel (mkReader [] chunks2).
+Proof. exact two_chunkings_same_samples. Qed.
+Print Assumptions C11_two_chunkings_same_samples.
+
+(** the iterator is fused in effect: after its first None every further call returns None, so the
+    application's later [next()] calls (after a flush) cannot resurrect the input *)
+Theorem C11_end_of_input_is_final : forall r r',
+  chunks_ok r -> next_sample r = (None, r') -> exists r'', next_sample r' = (None, r'').
+Proof. exact end_of_input_is_final. Qed.
+Print Assumptions C11_end_of_input_is_final.
